@@ -15,6 +15,9 @@ CHECKS = {
  "C10": dict(design="§5 C10", engine="XH",
              technique="CrossHair (z3) symbolic execution of _move_note / FileManager.add_note / delete_note / hidden-metadata helpers over solver-chosen page layouts, results recompiled with the real parser and judged by the property oracle",
              note="stubs: in-memory FS, init_from_template (C16), index lookup returns the compiled note; layouts from menus; SQL side outside"),
+ "C11": dict(design="§5 C11", engine="XH",
+             technique="CrossHair (z3) symbolic execution of _check_for_modified_notes + the ModifiedZorgNotesEvent handler write-back over solver-chosen edit scenarios and days, judged against the statement; kernels for the first-line rewrite and the decision",
+             note="stubs: clock, in-memory FS, hash = identity, json shim; old page = compiled old text (SQL round trip only in replay); scenario menus are the bound"),
 }
 NA = {
  "C13": "crash points between external effects (SQLite transactions, OS file writes) cannot be made symbolic: the effects are C-level/ORM internals; with them concrete a symbolic crash index is realised at the first effect, which is enumeration of faulted runs, a different technique (DESIGN.md §8)",
